@@ -383,6 +383,14 @@ def check_enumname(repo: Repo) -> List[str]:
                 has_digit_prefix = True
         if isinstance(node, ast.Compare) and norm(resolve_names(node, defs)) == "ekey[0] == '_'":
             has_strip_underscore = True
+        # the same test on the key after its characters were replaced (none of the replacements starts with an underscore-free
+        # prefix that could hide one): `first = name[0] … elif first == "_"`, `name.startswith("_")`
+        if isinstance(node, ast.Compare) and len(node.ops) == 1 and isinstance(node.ops[0], ast.Eq) and norm(node.comparators[0]) == "'_'":
+            l_ = resolve_names(node.left, defs)
+            if isinstance(l_, ast.Subscript) and norm(l_.slice) == "0":
+                has_strip_underscore = True
+        if isinstance(node, ast.Call) and isinstance(node.func, ast.Attribute) and node.func.attr == "startswith" and [norm(a) for a in node.args] == ["'_'"]:
+            has_strip_underscore = True
     if from_translate and sorted(reps) == sorted(ENUMNAME_REPLACEMENTS):
         pass
     elif not reps and any(p_.startswith("?") for p_ in problems):
@@ -392,5 +400,6 @@ def check_enumname(repo: Repo) -> List[str]:
     for flag, what in ((has_lower, "lower()"), (has_digit_prefix, "digit prefix"),
                        (has_strip_underscore, "leading underscore strip"), (has_collapse, "'__' collapse")):
         if not flag:
-            problems.append(f"enumname no longer performs: {what}")
+            # a step that is not found may be spelled in a way this reader does not know: undecided, not a difference
+            problems.append(f"?enumname: step not recognised: {what}")
     return problems
